@@ -10,7 +10,7 @@
    model does ([orel]); for the functions that start from DisplayBuffer::default() this is
    an equation through [rn_dbuf_abs] (= DisplayBuffer::as_str). *)
 From Coq Require Import NArith Arith List Bool Lia.
-From AV Require Import Generated.Style Generated.Render Spec.Sgr Spec.Io Model.Base Model.Imp Model.Style Model.Render
+From AV Require Import Generated.Style Generated.Render Spec.Vt Spec.Strip Spec.Sgr Spec.Algebra Spec.Render Spec.Io Model.Base Model.Imp Model.Style Model.Render
   Generated.StyleFn Generated.RenderFn Proofs.ParamsSim Proofs.StreamIo Proofs.StyleGen Proofs.Render.
 Import ListNotations.
 Local Open Scope N_scope.
@@ -469,4 +469,303 @@ Proof.
   - unfold gr_a256_render_bg. rewrite (bind_some_id' (gr_a256_bg_buffer n)). apply shown_of_sim, gr_a256_bg_sim.
   - unfold gr_rgb_render_fg. rewrite (bind_some_id' (gr_rgb_fg_buffer (r, g, b))). apply shown_of_sim, gr_rgb_fg_sim.
   - unfold gr_rgb_render_bg. rewrite (bind_some_id' (gr_rgb_bg_buffer (r, g, b))). apply shown_of_sim, gr_rgb_bg_sim.
+Qed.
+
+(* ==== the io::Write side: DisplayBuffer::write_to, Color::write_*_to, Effects::write_to, Style::write_to,
+   Style::write_reset_to =============================================================================
+   `write: &mut dyn io::Write` is the scripted writer of Spec/Io.v (it may accept short, fail, be
+   interrupted); `write.write_all(buf)` is std's default method [w_write_all].  The hand model keeps the
+   list of buffers handed to write_all ([rn_writer]) and has no failing writer.  [wr_bufs w bufs]: the
+   buffers written one after the other with write_all, the first error stops. *)
+
+Definition wres : Set := (writer * (unit + ekind))%type.
+
+Definition wr_step (st : wres) (b : list N) : wres :=
+  match snd st with inl _ => w_write_all (fst st) b | inr _ => st end.
+Definition wr_from (st : wres) (bufs : list (list N)) : wres := fold_left wr_step bufs st.
+Definition wr_bufs (w : writer) (bufs : list (list N)) : wres := wr_from (w, inl tt) bufs.
+
+Lemma wr_from_err w e bufs : wr_from (w, inr e) bufs = (w, inr e).
+Proof. induction bufs as [|b t IH]; [reflexivity|]. exact IH. Qed.
+
+Lemma wr_from_app st a b : wr_from st (a ++ b) = wr_from (wr_from st a) b.
+Proof. apply fold_left_app. Qed.
+
+(* an accept-all writer takes every buffer, stays accept-all, receives the concatenation *)
+Lemma wr_bufs_accept bufs : forall w, w_script w = [] ->
+  exists o, wr_bufs w bufs = (o, inl tt) /\ w_script o = [] /\ w_received o = w_received w ++ concat bufs.
+Proof.
+  unfold wr_bufs. induction bufs as [|b t IH]; intros w Hs.
+  - exists w. cbn. rewrite app_nil_r. auto.
+  - destruct (w_write_all_accept_all w b Hs) as (w1 & E1 & Hs1 & Hr1).
+    destruct (IH w1 Hs1) as (o & E & Hso & Hro). exists o.
+    cbn [wr_from fold_left wr_step snd fst]. rewrite E1. split; [exact E|]. split; [exact Hso|].
+    rewrite Hro, Hr1. cbn [concat]. rewrite app_assoc. reflexivity.
+Qed.
+
+(* a translated writing function [G] against a hand-model function [H] on the list of buffers: when the hand
+   model answers, [G] writes exactly the buffers the hand model appends, on ANY writer (errors included);
+   when the hand model panics, [G] panics on a writer that never fails (on a failing writer it may
+   return the error before it reaches the panic) *)
+Definition wsim (G : writer -> option wres) (H : rn_writer -> option rn_writer) : Prop :=
+  forall w bufs0,
+    match H bufs0 with
+    | Some bufs1 => exists ext, bufs1 = bufs0 ++ ext /\ G w = Some (wr_bufs w ext)
+    | None => w_script w = [] -> G w = None
+    end.
+
+Definition seqw (G1 G2 : writer -> option wres) (w : writer) : option wres :=
+  match G1 w with
+  | Some (o, inl _) => G2 o
+  | Some (o, inr e) => Some (o, inr e)
+  | None => None
+  end.
+Definition retw (w : writer) : option wres := Some (w, inl tt).
+Definition oslot (G : rn_color_view -> writer -> option wres) (o : option rn_color_view) (w : writer) : option wres :=
+  match o with Some c => G c w | None => Some (w, inl tt) end.
+
+Lemma wsim_ret : wsim retw (fun b => Some b).
+Proof. intros w b0. exists []. rewrite app_nil_r. auto. Qed.
+
+Lemma wsim_seq G1 G2 H1 H2 : wsim G1 H1 -> wsim G2 H2 -> wsim (seqw G1 G2) (fun b => b1 <- H1 b ;; H2 b1).
+Proof.
+  intros S1 S2 w b0. pose proof (S1 w b0) as P1. unfold seqw. destruct (H1 b0) as [b1|].
+  - destruct P1 as (ext1 & -> & E1). rewrite E1.
+    destruct (wr_bufs w ext1) as [o [u|e]] eqn:R.
+    + pose proof (S2 o (b0 ++ ext1)) as P2. destruct (H2 (b0 ++ ext1)) as [b2|].
+      * destruct P2 as (ext2 & -> & E2). exists (ext1 ++ ext2). split; [symmetry; apply app_assoc|].
+        rewrite E2. unfold wr_bufs in *. rewrite wr_from_app, R. destruct u. reflexivity.
+      * intros Hs. apply P2. destruct (wr_bufs_accept ext1 w Hs) as (o' & E & Hso & _).
+        rewrite R in E. injection E as -> _. exact Hso.
+    + pose proof (S2 o (b0 ++ ext1)) as P2. destruct (H2 (b0 ++ ext1)) as [b2|].
+      * destruct P2 as (ext2 & -> & _). exists (ext1 ++ ext2). split; [symmetry; apply app_assoc|].
+        unfold wr_bufs in *. rewrite wr_from_app, R, wr_from_err. reflexivity.
+      * intros Hs. destruct (wr_bufs_accept ext1 w Hs) as (o' & E & _). rewrite R in E. discriminate E.
+  - intros Hs. rewrite (P1 Hs). reflexivity.
+Qed.
+
+Lemma wsim_ext G G' H : (forall w, G' w = G w) -> wsim G H -> wsim G' H.
+Proof. intros E S w b0. rewrite E. apply S. Qed.
+
+(* DisplayBuffer::write_to on the buffer a translated builder returned *)
+Lemma wsim_buffer x : wsim (fun w => d <- x ;; gr_dbuf_write_to d w) (rn_buffer_write_to (gr_shown x)).
+Proof.
+  intros w b0. unfold rn_buffer_write_to, gr_shown, gr_dbuf_write_to. destruct x as [d|]; [|reflexivity].
+  destruct (gr_as_str d) as [b|]; [|reflexivity].
+  exists [b]. split; [reflexivity|]. unfold wr_bufs. cbn [wr_from fold_left wr_step snd fst].
+  destruct (w_write_all w b). reflexivity.
+Qed.
+
+(* Color::write_fg_to / write_bg_to / write_underline_to: the buffer of render_*, then write_to *)
+Lemma gr_color_write_fg_to_shape v w : gr_color_write_fg_to v w = (d <- gr_color_render_fg v ;; gr_dbuf_write_to d w).
+Proof.
+  unfold gr_color_write_fg_to, gr_color_render_fg. destruct v;
+    match goal with |- context [match ?x with Some r => Some r | None => None end] => destruct x as [d|] end;
+    try reflexivity; destruct (gr_dbuf_write_to d w) as [[? ?]|]; reflexivity.
+Qed.
+Lemma gr_color_write_bg_to_shape v w : gr_color_write_bg_to v w = (d <- gr_color_render_bg v ;; gr_dbuf_write_to d w).
+Proof.
+  unfold gr_color_write_bg_to, gr_color_render_bg. destruct v;
+    match goal with |- context [match ?x with Some r => Some r | None => None end] => destruct x as [d|] end;
+    try reflexivity; destruct (gr_dbuf_write_to d w) as [[? ?]|]; reflexivity.
+Qed.
+Lemma gr_color_write_underline_to_shape v w :
+  gr_color_write_underline_to v w = (d <- gr_color_render_underline v ;; gr_dbuf_write_to d w).
+Proof.
+  unfold gr_color_write_underline_to, gr_color_render_underline. destruct v;
+    match goal with |- context [match ?x with Some r => Some r | None => None end] => destruct x as [d|] end;
+    try reflexivity; destruct (gr_dbuf_write_to d w) as [[? ?]|]; reflexivity.
+Qed.
+
+Lemma wsim_color_fg c : wsim (gr_color_write_fg_to (rn_color_view_of c)) (rn_buffer_write_to (rn_color_fg_buffer c)).
+Proof.
+  destruct (translated_buffers_are_model c) as (<- & _ & _).
+  eapply wsim_ext; [intros w; apply gr_color_write_fg_to_shape | apply wsim_buffer].
+Qed.
+Lemma wsim_color_bg c : wsim (gr_color_write_bg_to (rn_color_view_of c)) (rn_buffer_write_to (rn_color_bg_buffer c)).
+Proof.
+  destruct (translated_buffers_are_model c) as (_ & <- & _).
+  eapply wsim_ext; [intros w; apply gr_color_write_bg_to_shape | apply wsim_buffer].
+Qed.
+Lemma wsim_color_ul c : wsim (gr_color_write_underline_to (rn_color_view_of c)) (rn_buffer_write_to (rn_color_ul_buffer c)).
+Proof.
+  destruct (translated_buffers_are_model c) as (_ & _ & <-).
+  eapply wsim_ext; [intros w; apply gr_color_write_underline_to_shape | apply wsim_buffer].
+Qed.
+
+Lemma wsim_oslot G buffer o :
+  (forall c, wsim (G (rn_color_view_of c)) (rn_buffer_write_to (buffer c))) ->
+  wsim (oslot G (option_map rn_color_view_of o)) (rn_write_ocolor buffer o).
+Proof.
+  intros S. destruct o as [c|]; cbn [option_map oslot rn_write_ocolor]; [apply S | apply wsim_ret].
+Qed.
+
+(* Effects::write_to: one write_all per set effect, the first error leaves the loop *)
+Lemma wsim_effects e : wsim (gr_effects_write_to e) (rn_write_effects e).
+Proof.
+  intros w b0. unfold gr_effects_write_to, rn_write_effects.
+  change (iter_drain g_eff_index_iter_next (S (length metadata)) (g_eff_index_iter e)) with (g_eff_index_iter_items e).
+  rewrite g_eff_index_iter_eq. destruct (e_index_iter e) as [l|]; [|reflexivity].
+  match goal with |- context [for_list ?F l w] => set (step := F) end.
+  set (fin := fun lr : writer + wres => match lr with inl st => (st, inl tt) | inr p => p end).
+  assert (L : forall l w b0,
+    match rn_write_effects_loop l b0 with
+    | Some b1 => exists ext, b1 = b0 ++ ext /\ option_map fin (for_list step l w) = Some (wr_bufs w ext)
+    | None => w_script w = [] -> for_list step l w = None
+    end).
+  { assert (Hstep : forall i w, step i w =
+        match aget metadata i with
+        | Some md => match w_write_all w (snd md) with
+                     | (o, inl _) => Some (LNext o)
+                     | (o, inr err) => Some (LRet (o, inr err))
+                     end
+        | None => None
+        end) by (intros; unfold step, md_escape; destruct (aget metadata _); reflexivity).
+    clearbody step. clear - Hstep. induction l as [|i t IH]; intros w b0; cbn [for_list rn_write_effects_loop].
+    - exists []. rewrite app_nil_r. auto.
+    - rewrite Hstep. destruct (aget metadata i) as [md|]; [|reflexivity].
+      destruct (w_write_all w (snd md)) as [w1 [u|k]] eqn:R; cbv beta iota zeta.
+      + pose proof (IH w1 (b0 ++ [snd md])) as P. destruct (rn_write_effects_loop t (b0 ++ [snd md])) as [b1|].
+        * destruct P as (ext & -> & E). exists (snd md :: ext). split; [rewrite <- app_assoc; reflexivity|].
+          rewrite E. unfold wr_bufs. cbn [wr_from fold_left wr_step snd fst]. rewrite R. destruct u. reflexivity.
+        * intros Hs. apply P. destruct (w_write_all_accept_all w (snd md) Hs) as (w' & E & Hs' & _).
+          rewrite R in E. injection E as -> _. exact Hs'.
+      + pose proof (IH w1 (b0 ++ [snd md])) as P. destruct (rn_write_effects_loop t (b0 ++ [snd md])) as [b1|].
+        * destruct P as (ext & -> & _). exists (snd md :: ext). split; [rewrite <- app_assoc; reflexivity|].
+          unfold wr_bufs. cbn [wr_from fold_left wr_step snd fst option_map fin]. rewrite R.
+          fold (wr_from (w1, inr k) ext). rewrite wr_from_err. reflexivity.
+        * intros Hs. destruct (w_write_all_accept_all w (snd md) Hs) as (w' & E & _). rewrite R in E. discriminate E. }
+  pose proof (L l w b0) as P. destruct (rn_write_effects_loop l b0) as [b1|].
+  - destruct P as (ext & -> & E). exists ext. split; [reflexivity|].
+    destruct (for_list step l w) as [[st|[st rv]]|]; cbn [option_map fin] in E; try discriminate E;
+      injection E as <-; reflexivity.
+  - intros Hs. rewrite (P Hs). reflexivity.
+Qed.
+
+(* Style::write_to is the sequence effects, fg, bg, underline; every `?` returns the error *)
+Lemma gr_style_write_to_shape s w :
+  gr_style_write_to s w =
+  seqw (gr_effects_write_to (st_eff s))
+    (seqw (oslot gr_color_write_fg_to (rn_st_fg s))
+      (seqw (oslot gr_color_write_bg_to (rn_st_bg s))
+        (seqw (oslot gr_color_write_underline_to (rn_st_ul s)) retw))) w.
+Proof.
+  unfold gr_style_write_to, seqw, oslot, retw.
+  destruct (gr_effects_write_to (st_eff s) w) as [[w1 [[]|e]]|]; try reflexivity. cbv beta iota zeta.
+  destruct (rn_st_fg s) as [c1|], (rn_st_bg s) as [c2|], (rn_st_ul s) as [c3|];
+    repeat (cbv beta iota zeta;
+            match goal with
+            | |- context [gr_color_write_fg_to ?c ?x] => destruct (gr_color_write_fg_to c x) as [[? [[]|?]]|]
+            | |- context [gr_color_write_bg_to ?c ?x] => destruct (gr_color_write_bg_to c x) as [[? [[]|?]]|]
+            | |- context [gr_color_write_underline_to ?c ?x] => destruct (gr_color_write_underline_to c x) as [[? [[]|?]]|]
+            end); reflexivity.
+Qed.
+
+Lemma gr_style_write_to_sim s : wsim (gr_style_write_to s) (rn_write_slots s rn_write_order).
+Proof.
+  eapply wsim_ext; [intros w; apply gr_style_write_to_shape|]. unfold rn_write_order, rn_st_fg, rn_st_bg, rn_st_ul.
+  refine (wsim_seq _ _ (rn_write_slot s RnEffects) (rn_write_slots s [RnFg; RnBg; RnUl]) (wsim_effects _) _).
+  refine (wsim_seq _ _ (rn_write_slot s RnFg) (rn_write_slots s [RnBg; RnUl]) (wsim_oslot _ _ _ wsim_color_fg) _).
+  refine (wsim_seq _ _ (rn_write_slot s RnBg) (rn_write_slots s [RnUl]) (wsim_oslot _ _ _ wsim_color_bg) _).
+  refine (wsim_seq _ _ (rn_write_slot s RnUl) (rn_write_slots s []) (wsim_oslot _ _ _ wsim_color_ul) wsim_ret).
+Qed.
+
+(* Style::write_to, any writer: the buffers of the hand model, written in order with write_all; the first
+   error is returned and nothing more is written *)
+Theorem translated_write_to_is_model s bufs w :
+  rn_write_to s = Some bufs -> gr_style_write_to s w = Some (wr_bufs w bufs).
+Proof.
+  intros E. pose proof (gr_style_write_to_sim s w []) as P. unfold rn_write_to in E. rewrite E in P.
+  destruct P as (ext & -> & P). exact P.
+Qed.
+
+(* ... and on a writer that never fails, a panic included *)
+Theorem translated_write_to_accept_all s w :
+  w_script w = [] -> gr_style_write_to s w = option_map (wr_bufs w) (rn_write_to s).
+Proof.
+  intros Hs. pose proof (gr_style_write_to_sim s w []) as P. unfold rn_write_to.
+  destruct (rn_write_slots s rn_write_order []) as [b1|]; cbn [option_map].
+  - destruct P as (ext & -> & P). exact P.
+  - exact (P Hs).
+Qed.
+
+(* what such a writer has received is what `render()` shows (Proofs/Render.v paths_agree) *)
+Theorem translated_write_to_bytes s bs :
+  rn_render_style s = Some bs ->
+  exists w, gr_style_write_to s (writer_of []) = Some (w, inl tt) /\ w_received w = bs.
+Proof.
+  intros E. rewrite <- paths_agree in E. destruct (rn_write_to s) as [bufs|] eqn:Eb; [|discriminate E].
+  injection E as <-. rewrite (translated_write_to_is_model s bufs _ Eb).
+  destruct (wr_bufs_accept bufs (writer_of []) eq_refl) as (o & -> & _ & Hr). exists o. split; [reflexivity|exact Hr].
+Qed.
+
+(* Style::write_reset_to *)
+Theorem translated_write_reset_to_is_model s w :
+  gr_style_write_reset_to s w = Some (wr_bufs w (rn_write_reset_to s)).
+Proof.
+  unfold gr_style_write_reset_to, rn_write_reset_to. rewrite g_st_new_eq.
+  destruct (negb (style_eqb s st_new)); [|reflexivity].
+  unfold wr_bufs. cbn [wr_from fold_left wr_step snd fst]. destruct (w_write_all w rn_reset_str). reflexivity.
+Qed.
+
+(* ==== the conversions into Color and the `on` / `on_default` constructors of a Style (color.rs) ========
+   over the Rust enum [rn_color_view]; [rn_color_of_view] is the colour of Model/Style.v.  Style::new /
+   fg_color / bg_color are the functions of Model/Style.v (translated and proved in StyleFn / StyleGen). *)
+
+Lemma rn_color_of_view_of c : rn_color_of_view (rn_color_view_of c) = c.
+Proof. destruct c; reflexivity. Qed.
+
+Theorem translated_color_from_is_model :
+  (forall a, rn_color_of_view (gr_color_from_ansi a) = CoAnsi a) /\
+  (forall n, rn_color_of_view (gr_color_from_a256 n) = CoAnsi256 n) /\
+  (forall r g b, rn_color_of_view (gr_color_from_rgb (r, g, b)) = CoRgb r g b) /\
+  (forall n, rn_color_of_view (gr_color_from_u8 n) = CoAnsi256 n) /\
+  (forall r g b, rn_color_of_view (gr_color_from_tuple (r, g, b)) = CoRgb r g b) /\
+  (forall n, gr_a256_from_u8 n = n) /\
+  (forall r g b, gr_rgb_from_tuple (r, g, b) = (r, g, b)).
+Proof. repeat split. Qed.
+
+(* `fg.on(bg)` = Style::new().fg_color(Some(fg)).bg_color(Some(bg)), `fg.on_default()` = ..fg_color(Some(fg)) *)
+Definition st_on (fg bg : color) : style := st_bg_color (st_fg_color st_new (Some fg)) (Some bg).
+Definition st_on_default (fg : color) : style := st_fg_color st_new (Some fg).
+
+Theorem translated_on_is_model :
+  (forall c b, gr_color_on (rn_color_view_of c) (rn_color_view_of b) = st_on c b) /\
+  (forall a b, gr_ansi_on a (rn_color_view_of b) = st_on (CoAnsi a) b) /\
+  (forall n b, gr_a256_on n (rn_color_view_of b) = st_on (CoAnsi256 n) b) /\
+  (forall r g bl b, gr_rgb_on (r, g, bl) (rn_color_view_of b) = st_on (CoRgb r g bl) b) /\
+  (forall c, gr_color_on_default (rn_color_view_of c) = st_on_default c) /\
+  (forall a, gr_ansi_on_default a = st_on_default (CoAnsi a)) /\
+  (forall n, gr_a256_on_default n = st_on_default (CoAnsi256 n)) /\
+  (forall r g bl, gr_rgb_on_default (r, g, bl) = st_on_default (CoRgb r g bl)).
+Proof.
+  unfold gr_color_on, gr_ansi_on, gr_a256_on, gr_rgb_on, gr_color_on_default, gr_ansi_on_default, gr_a256_on_default,
+    gr_rgb_on_default, st_on, st_on_default, rn_st_fg_color, rn_st_bg_color.
+  rewrite g_st_new_eq.
+  refine (conj _ (conj _ (conj _ (conj _ (conj _ (conj _ (conj _ _))))))); intros; cbn [option_map];
+    rewrite ?rn_color_of_view_of; reflexivity.
+Qed.
+
+(* ==== the theorems of C05 about the translated code ================================================== *)
+
+(* what `style.render().to_string()` of the TRANSLATED code gives is SGR only and reads back as the style *)
+Theorem translated_render_roundtrip s :
+  rn_wf (rn_sstyle s) -> rn_at_most_one_underline_kind (rn_sstyle s) ->
+  exists bs, gr_render_style s = Some bs /\
+             spec_events bs = map rn_sgr (rn_groups_of (rn_sstyle s)) /\
+             rn_interp_style (spec_events bs) style_default = rn_norm (rn_sstyle s).
+Proof.
+  intros Hwf H1. rewrite translated_render_style_is_model.
+  destruct (render_is_sgr_only s Hwf) as (bs & E & Hev).
+  destruct (render_roundtrip s Hwf H1) as (bs' & E' & Hrt). rewrite E in E'. injection E' as <-.
+  exists bs. auto.
+Qed.
+
+(* `{}` of the translated Display is render, `{:#}` is render_reset, whatever width / fill / align / precision *)
+Theorem translated_display_forms flags s :
+  gr_format false flags (gr_style_fmt s) = gr_render_style s /\
+  gr_format true flags (gr_style_fmt s) = Some (gr_style_render_reset s).
+Proof.
+  rewrite !translated_display_is_model, translated_render_style_is_model, gr_style_render_reset_eq.
+  apply display_forms.
 Qed.
